@@ -299,6 +299,7 @@ def parseObs (s : String) : Option Obs :=
   | ["bad-op"] => some .badOp
   | "snap" :: fields => (fields.foldlM parseSnapField emptySnap).map .snap
   | "cap" :: _ => some .ok
+  | "ok" :: _ => some .ok          -- `skt.inc h -> ok size=n`
   | "policy" :: _ => some .ok
   | ["dropped", k, v] =>
     -- `drop -> dropped k=<live keys> v=<live values>`: an empty cache and what is still alive
